@@ -112,8 +112,15 @@ RE == 6371000
 PtM(c, p) == IF c.sph THEN <<p[1] + c.lonoff, p[2]>> ELSE <<p[1] * U, p[2] * U>>
 RenderEntry(c, e, shift) == IF Len(e) = 1 THEN <<(e[1] + shift) * Km>> ELSE <<(e[1] + shift) * Km, [j \in 1..Len(e[2]) |-> PtM(c, e[2][j])]>>
 SurfaceOf(c, shift) == [k \in 1..Len(Entries(c)) |-> RenderEntry(c, Entries(c)[k], shift)]
+(* the two surfaces of a feature are independent: with both depths given at points the max-depth surface lists, for affine data, the
+   LAST nint interior points of the catalogue instead of the first (another triangulation of the same plane), otherwise the same nodes
+   in the opposite order after the default entry *)
+AltInterior(c) == LET I == Interior(c.poly) IN [k \in 1..c.nint |-> <<Val(c, I[Len(I) - k + 1], k + 4), <<I[Len(I) - k + 1]>>>>]
+AltEntries(c) == <<<<Default>>>> \o (IF c.cornersfirst THEN CornerEntries(c) \o AltInterior(c) ELSE AltInterior(c) \o CornerEntries(c))
+AltSurfaceOf(c, shift) == [k \in 1..Len(AltEntries(c)) |-> RenderEntry(c, AltEntries(c)[k], shift)]
 LoOf(c) == IF c.which = "max" THEN 0 ELSE SurfaceOf(c, 0)
-HiOf(c) == CASE c.which = "max" -> SurfaceOf(c, 0) [] c.which = "min" -> 400 * Km [] c.which = "both" -> IF c.reset = "none" THEN <<Head(SurfaceOf(c, 150))>> \o Reverse(Tail(SurfaceOf(c, 150))) ELSE SurfaceOf(c, 150)     \* the same nodes, after the default entry listed in the opposite order: the two surfaces of a feature are independent
+HiOf(c) == CASE c.which = "max" -> SurfaceOf(c, 0) [] c.which = "min" -> 400 * Km [] c.which = "both" -> IF c.affine THEN AltSurfaceOf(c, 150)                          \* affine data: other interior nodes, the same plane
+                                                ELSE IF c.reset = "none" THEN <<Head(SurfaceOf(c, 150))>> \o Reverse(Tail(SurfaceOf(c, 150))) ELSE SurfaceOf(c, 150)
 (* the observed quantity switches between "on" and "off" where the surface is: composition 1 (1 / 0), or for a temperature
    model the temperature (500 / the background, 1600 exactly with thermal expansion 0) *)
 Doc(c) == World(IF c.sph THEN Spherical("begin segment") ELSE Cartesian,
